@@ -47,7 +47,7 @@ def _read_until_prompt(fd, buf, deadline):
         buf += d
 
 
-def run_session(workdir, lines, rseed, cols=250):
+def run_session(workdir, lines, rseed, cols=1000):
     """lines: list of physical lines to type (continuation lines end with a backslash).
     Returns (Result, segments) where segments[i] = text printed after physical line i was
     confirmed and before the next prompt ('' for a continuation line), already stripped of ANSI
@@ -128,6 +128,13 @@ def run_session(workdir, lines, rseed, cols=250):
         if pid:
             try:
                 p, st = os.waitpid(pid, os.WNOHANG)
+                if not p and not getattr(res, "repl_error", None):
+                    # the terminal is closed but the exit has not been reaped yet: wait for it
+                    # (bounded; exiting takes microseconds, the bound is only a safety net)
+                    t_end = time.time() + TIMEOUT
+                    while not p and time.time() < t_end:
+                        time.sleep(0.002)
+                        p, st = os.waitpid(pid, os.WNOHANG)
                 if not p:
                     os.kill(pid, signal.SIGKILL)
                     p, st = os.waitpid(pid, 0)
